@@ -80,7 +80,8 @@ func (b bufSpec) String() string {
 type chanPlan struct {
 	writes     []int
 	pauses     []time.Duration // before write i (len = len(writes)+1: the last one precedes the close)
-	dual       bool            // a second writer task writes writes2 on the same connection at the same time
+	wdl        wdlPlan
+	dual       bool // a second writer task writes writes2 on the same connection at the same time
 	writes2    []int
 	pauses2    []time.Duration
 	total      int
@@ -228,6 +229,9 @@ func (p *plan) describe() []string {
 			for _, b := range c.bufs {
 				bs = append(bs, b.String())
 			}
+			if c.wdl.on {
+				out = append(out, fmt.Sprintf("  plan %s: write #%d gets a write deadline (ahead by %v; 0 = already passed); on a timeout the writer clears it and continues from b[n:]", chanID(s, d), c.wdl.idx, c.wdl.ahead))
+			}
 			if c.dual {
 				out = append(out, fmt.Sprintf("  plan %s: SECOND WRITER TASK on the same connection: writes=%v pauses=%v (payload keyed per write)", chanID(s, d), c.writes2, c.pauses2))
 			}
@@ -278,6 +282,7 @@ func genPlan(g simrt.Gen) *plan {
 	}
 	if isQuicLayer(p.layer) {
 		genQuic(g, p)
+		genWdl(g, p)
 		return p
 	}
 	switch p.stratum {
@@ -315,6 +320,7 @@ func genPlan(g simrt.Gen) *plan {
 			}
 		}
 	}
+	genWdl(g, p)
 	return p
 }
 
@@ -439,6 +445,67 @@ func genWrites(g simrt.Gen, p *plan, small bool, budget *int, nw int) []int {
 	return out
 }
 
+// computeFrames: the notional Noise frames of the planned writes (of writer 0) and the planned total.
+func (c *chanPlan) computeFrames() {
+	c.frames, c.total = nil, 0
+	end := 0
+	for _, w := range c.writes {
+		c.total += w
+		for w > 0 {
+			f := min(w, noiseMaxPlain)
+			end += f
+			w -= f
+			c.frames = append(c.frames, end)
+		}
+	}
+	for _, w := range c.writes2 {
+		c.total += w
+	}
+}
+
+// wdlPlan: writer behaviour "deadline, then carry on" - before write #idx the writer sets a write deadline that has
+// already passed (or, on yamux streams, one a few virtual milliseconds ahead while the reader is late and the write is larger
+// than the send window); when Write returns a timeout it clears the deadline and CONTINUES FROM b[n:], exactly as the
+// returned n says (io.Writer: "the number of bytes written from p"; net.Conn: timeouts are retryable).
+type wdlPlan struct {
+	on    bool
+	idx   int
+	ahead time.Duration // 0 = the deadline is already in the past
+}
+
+// genWdl is drawn last (after everything else of the plan).
+func genWdl(g simrt.Gen, p *plan) {
+	if p.stratum != stClean && p.stratum != stTiming {
+		return
+	}
+	budget := 300000
+	for s := range p.ch {
+		for d := 0; d < 2; d++ {
+			c := &p.ch[s][d]
+			if c.dual || len(c.writes) == 0 || !g.Chance(1, 3) {
+				continue
+			}
+			c.wdl.on = true
+			c.wdl.idx = g.Int(len(c.writes))
+			if p.layer == layPnet {
+				// only the first Write: a later one that fails has already consumed key stream (see the header: observation)
+				c.wdl.idx = 0
+			}
+			yamux := p.layer == layMuxNoise || p.layer == layMuxTLS || p.layer == layHostNoise || p.layer == layHostTLS
+			if yamux && p.mode != simnet.Tiny && budget > 0 && g.Bool() {
+				// the deadline expires in the middle of a Write: more than the 256 KiB send window, and a late reader
+				c.wdl.ahead = []time.Duration{time.Millisecond, 40 * time.Millisecond}[g.Int(2)]
+				c.writes[c.wdl.idx] = yamuxWindow + 1 + g.Int(70000)
+				budget -= c.writes[c.wdl.idx]
+				if c.startDelay < 2*time.Second {
+					c.startDelay = 2 * time.Second
+				}
+				c.computeFrames()
+			}
+		}
+	}
+}
+
 func genChan(g simrt.Gen, p *plan, small bool, budget *int) chanPlan {
 	var c chanPlan
 	c.writes = genWrites(g, p, small, budget, []int{1, 2, 3, 0, 4, 5}[g.Weighted(3, 3, 2, 1, 1, 1)])
@@ -480,16 +547,7 @@ func genChan(g simrt.Gen, p *plan, small bool, budget *int) chanPlan {
 		}
 		c.deadline, c.retries = 0, 0
 	}
-	// notional Noise frames of the planned writes
-	end := 0
-	for _, w := range c.writes {
-		for w > 0 {
-			f := min(w, noiseMaxPlain)
-			end += f
-			w -= f
-			c.frames = append(c.frames, end)
-		}
-	}
+	c.computeFrames()
 	// read buffer cycle
 	slack := func() int { return []int{0, 1, 16, 64}[g.Int(4)] }
 	if g.Chance(1, 3) {
